@@ -12,7 +12,8 @@ LEVEL = "exploration"
 BUDGET = {"quick": 900, "thorough": 14000}
 RULE = (
     "case = one core (DAG, exit codes, cancel flags) run under 2-4 generated variants (batch sizes, time-based "
-    "batching, try-add-blocked, max-nodes, 1-3 groups, HPC or local mode), each with its own generated schedule; "
+    "batching, try-add-blocked, max-nodes, 1-3 groups, HPC or local mode), each with its own generated schedule (a "
+    "quarter of the HPC variants interleaved at file-operation granularity too); "
     "every variant must complete (with the documented recovery when needed) with exactly one result per configured "
     "job, no missing jobs, no duplicate rows, and every job's class equal to the reference evaluation of the DAG "
     "in topological order -- hence all variants agree; non-trivial = some variant submitted >= 2 batches and the "
@@ -37,6 +38,9 @@ def families(draw):
             "max_nodes": draw(st.sampled_from([None, 1, 2, 3])),
             "reports": draw(st.booleans()) if mode == "hpc" else False,
             "schedule": draw(gen.schedules(120)),
+            # a quarter of the HPC variants are interleaved at file-operation granularity as well (result files are
+            # appended, read, copied and removed by different processes)
+            "file_yields": mode == "hpc" and draw(st.sampled_from([False, False, False, True])),
         })
     return {"core": core, "variants": variants}
 
@@ -65,11 +69,14 @@ def run_case(case):
     logs = []
     for vi, var in enumerate(case["variants"]):
         scn = variant_scenario(core, var)
-        with H.Sim(scn, schedule=var["schedule"]) as sim:
+        with H.Sim(scn, schedule=var["schedule"], file_yields=var.get("file_yields", False),
+                   max_steps=30000 if var.get("file_yields") else 8000) as sim:
             sim.submit()
             outcome = sim.drive()
             res["counters"]["variant_runs"] += 1
             res["classes"].append("variant:" + var["mode"])
+            if var.get("file_yields"):
+                res["classes"].append("variant:file_granularity")
             if sim.recovery_rounds:
                 res["classes"].append("needed_recovery_round")
             if outcome != "complete":
